@@ -815,11 +815,16 @@ class QvmCpu:
                       expected=a.type,
                       got=b.type)
 
+        base = float(a.value)
+        exponent = float(b.value)
+        if base < 0 and exponent != math.floor(exponent):
+            self.trap(TrapCode.INVALID_OPERAND_VALUE,
+                      desc='negative base with fractional exponent')
         try:
             # always in floating point: an integer power such as
             # 2147483647& ^ 2147483647& would otherwise be computed
             # exactly, which takes forever and exhausts memory
-            result = float(a.value) ** float(b.value)
+            result = base ** exponent
         except OverflowError:
             self.trap(TrapCode.INVALID_CELL_VALUE,
                       type=a.type,
